@@ -74,20 +74,31 @@ func isBlobCreate(r *Roles, call ssa.CallInstruction) bool {
 // local variable), the values stored into each of its fields (by field name).
 func structStores(v ssa.Value) map[string][]ssa.Value {
 	out := map[string][]ssa.Value{}
-	var al *ssa.Alloc
+	// the struct's address: a local variable / literal, or the address of a struct-typed field or element of one
+	// (&rec.desc, &arr[0]) that is filled in place
+	var al ssa.Value
+	isAddr := func(x ssa.Value) bool {
+		switch x.(type) {
+		case *ssa.Alloc, *ssa.FieldAddr, *ssa.IndexAddr:
+			return true
+		}
+		return false
+	}
 	switch x := v.(type) {
 	case *ssa.UnOp:
-		if x.Op == token.MUL {
-			al, _ = x.X.(*ssa.Alloc)
+		if x.Op == token.MUL && isAddr(x.X) {
+			al = x.X
 		}
-	case *ssa.Alloc:
-		al = x
+	default:
+		if isAddr(v) {
+			al = v
+		}
 	}
 	if al == nil {
 		return out
 	}
-	var collect func(a *ssa.Alloc, depth int)
-	collect = func(a *ssa.Alloc, depth int) {
+	var collect func(a ssa.Value, depth int)
+	collect = func(a ssa.Value, depth int) {
 		if a.Referrers() == nil || depth > 2 {
 			return
 		}
@@ -354,4 +365,81 @@ func returnsIndex(f *ssa.Function) bool {
 		}
 	}
 	return false
+}
+
+// ---- sets: a map used as a set, directly or through methods of a named map type ----
+
+// setMethodSSA classifies a method of a named map type: "add" when it stores into recv[param], "has" when it returns the
+// membership of its parameter in the receiver.
+func setMethodSSA(f *ssa.Function) string {
+	if f == nil || len(f.Blocks) == 0 || f.Signature.Recv() == nil || len(f.Params) != 2 {
+		return ""
+	}
+	if _, isMap := f.Params[0].Type().Underlying().(*types.Map); !isMap {
+		return ""
+	}
+	kind := ""
+	an.Instrs(f, func(in ssa.Instruction) {
+		switch x := in.(type) {
+		case *ssa.MapUpdate:
+			if x.Map == ssa.Value(f.Params[0]) && an.Strip(x.Key) == ssa.Value(f.Params[1]) {
+				kind = "add"
+			}
+		case *ssa.Lookup:
+			if x.X == ssa.Value(f.Params[0]) && an.Strip(x.Index) == ssa.Value(f.Params[1]) && kind == "" {
+				if f.Signature.Results().Len() == 1 {
+					if bt, ok := f.Signature.Results().At(0).Type().Underlying().(*types.Basic); ok && bt.Kind() == types.Bool {
+						kind = "has"
+					}
+				}
+			}
+		}
+	})
+	return kind
+}
+
+// setLookup: v is a membership test — m[k] of a bool map, the ok of `_, ok := m[k]`, or m.has(k).
+func setLookup(v ssa.Value) (m, k ssa.Value, ok bool) {
+	switch x := v.(type) {
+	case *ssa.Lookup:
+		if _, isMap := x.X.Type().Underlying().(*types.Map); isMap && !x.CommaOk {
+			return x.X, x.Index, true
+		}
+	case *ssa.Extract:
+		if lk, isLk := x.Tuple.(*ssa.Lookup); isLk && lk.CommaOk && x.Index == 1 {
+			return lk.X, lk.Index, true
+		}
+	case *ssa.Call:
+		if setMethodSSA(x.Call.StaticCallee()) == "has" && len(x.Call.Args) == 2 {
+			return x.Call.Args[0], x.Call.Args[1], true
+		}
+	}
+	return nil, nil, false
+}
+
+type setInsert struct {
+	key   ssa.Value
+	at    ssa.Instruction
+	block *ssa.BasicBlock
+}
+
+// setInserts: the insertions into the set m in its function: m[k] = … and m.add(k).
+func setInserts(m ssa.Value) []setInsert {
+	var out []setInsert
+	if m == nil || m.Referrers() == nil {
+		return nil
+	}
+	for _, ref := range *m.Referrers() {
+		switch x := ref.(type) {
+		case *ssa.MapUpdate:
+			if x.Map == m {
+				out = append(out, setInsert{x.Key, x, x.Block()})
+			}
+		case *ssa.Call:
+			if setMethodSSA(x.Call.StaticCallee()) == "add" && len(x.Call.Args) == 2 && x.Call.Args[0] == m {
+				out = append(out, setInsert{x.Call.Args[1], x, x.Block()})
+			}
+		}
+	}
+	return out
 }
